@@ -574,6 +574,14 @@ def run(tier, seed):
             R.violation(sig, desc + f' (input {line[2:]})', {'input': line, 'got': i, 'class': classify(line[2:])})
     # resolution verdict oracle on clause lists (all clauses non-empty): F iff unsat, T iff all trivial
     for (line, kind), i in zip(cases, impl):
+        if line[0] == 'R' and i is not None and i.startswith('ERR') and not i.startswith('ERR RecursionError'):
+            body = line[2:].strip()[1:]
+            cl0 = [] if not body else [[int(x) for x in c.split(',')] if c else [] for c in body[1:-1].split('][')]
+            if cl0 and all(len(c) > 0 and 0 not in c for c in cl0):
+                R.violation('start_resolution_algorithm/raises:' + i.split()[-1],
+                            f'start_resolution_algorithm raised {i} on the well-formed clause list {line[2:]}',
+                            {'input': line, 'got': i})
+            continue
         if line[0] != 'R' or i is None or not i.startswith('res='):
             continue
         s = line[2:].strip()
@@ -668,6 +676,15 @@ def run(tier, seed):
                         {'input': q, 'got': a})
     R.hist['oracle_cases'] = n_oracle
 
+    # mismatching helper-conclusion cases: execute the helper's proof and compare with its spec (concrete failing input)
+    if mismatches:
+        conv = {'SC': 'QP S ', 'TC': 'QP T ', 'MC': 'QP M '}
+        qx = [conv[m[0].split()[0]] + m[0].split(' ', 1)[1] for m in mismatches if m[0].split()[0] in conv][:16]
+        for q, a in zip(qx, run_impl(qx, timeout_case=120) if qx else []):
+            if a and a.startswith(('BAD', 'ERR')) and not a.startswith('ERR RecursionError'):
+                name = {'S': 'H_simplify', 'M': 'H_merge', 'T': 'H_trivial'}[q[3]]
+                R.violation(f'proof-layer/helper-spec/{name}', f'helper spec {name} fails at run time: {a} (input {q})',
+                            {'input': q, 'got': a})
     # bigger oracle budget when something broke
     if proof_broken or mismatches:
         rng = C.rng_for(seed, CID + ':search')
